@@ -642,7 +642,27 @@ func ruleFragmentClassified(c *Ctx, rule string) {
 					break
 				}
 				call, ok := cond.(*ssa.Call)
-				if !ok || core.CalleeKey(&call.Call) != "strings.HasPrefix" || len(call.Call.Args) != 2 {
+				if !ok {
+					continue
+				}
+				// the test may live in a predicate on the fragment: func isJSONPointer(frag string) bool
+				if h := call.Call.StaticCallee(); h != nil && c.P.InPkg(h) && len(h.Params) == 1 && len(call.Call.Args) == 1 && tString(h.Params[0].Type()) {
+					inner := false
+					core.EachInstr(h, func(j ssa.Instruction) {
+						if hc, ok := j.(*ssa.Call); ok && core.CalleeKey(&hc.Call) == "strings.HasPrefix" && len(hc.Call.Args) == 2 && hc.Call.Args[0] == ssa.Value(h.Params[0]) {
+							if s, isStr := constString(hc.Call.Args[1]); isStr && s == "/" {
+								inner = true
+							}
+						}
+					})
+					if inner {
+						n++
+						same := sharesSource(call.Call.Args[0], lk.Index)
+						c.R.Check(same, rule, fmt.Sprintf("%s:pointer-or-anchor#%d", core.FuncName(fn), n), c.pos(call), "the pointer-or-anchor decision is made on the string that is looked up", "whether the fragment is a JSON Pointer is decided on another string than the one looked up in the anchor table (its escaped form, say): a pointer whose leading slash is written %2F is taken for an anchor name, so the $ref fails, or reaches whatever schema happens to carry that text as $anchor")
+					}
+					continue
+				}
+				if core.CalleeKey(&call.Call) != "strings.HasPrefix" || len(call.Call.Args) != 2 {
 					continue
 				}
 				if s, isStr := constString(call.Call.Args[1]); !isStr || s != "/" {
